@@ -51,6 +51,9 @@ def encodings(codes):
     if B:
         out.append(('merged', 'interface P %s\ninterface P %s\n' % (body(A), body(B)), 'P', '', E))
         out.append(('merged-after', 'interface P %s\n' % body(A), 'P', 'interface P %s\n' % body(B), E))
+        # every declaration of a merged interface may have its own heritage clause
+        out.append(('merged-extends-later', 'interface Base %s\ninterface P {{}}\ninterface P extends Base %s\n' % (body(A), body(B)), 'P', '', E))
+        out.append(('merged-extends-both', 'interface B0 %s\ninterface B1 %s\ninterface P extends B0 {{}}\ninterface P extends B1 {{}}\n' % (body(A), body(B)), 'P', '', E))
         out.append(('extends', 'interface Base %s\ninterface P extends Base %s\n' % (body(A), body(B)), 'P', '', E))
         out.append(('extends-chain', 'interface B0 %s\ninterface B1 extends B0 {{}}\ninterface P extends B1 %s\n' % (body(A), body(B)), 'P', '', E))
         out.append(('intersection', 'type PA = %s;\ninterface PB %s\n' % (body(A), body(B)), 'PA & PB', '', E))
